@@ -63,7 +63,7 @@ let obs_of_spec sr =
     norm_obs kv (List.map (fun ((_, name), v) -> (decode_stack name, v)) (List.concat tbl))
 
 let res_to_string = function
-  | RLong -> "long" | RCorrupt -> "corrupt" | RStuck -> "stuck"
+  | REmpty -> "empty" | RLong -> "long" | RCorrupt -> "corrupt" | RStuck -> "stuck"
   | ROk o -> "ok " ^ tok_of_n o | RDone -> "done" | RFail -> "fail"
 
 (* the abstract map of a file: raw name -> value (as token) *)
@@ -150,7 +150,7 @@ let handle kind c =
                let tag = next c in
                let r = if tag = "ok" then "ok " ^ tok_of_n (next_n c) else tag in
                (OpAdd (name, delta), r,
-                (if tag = "ok" || (tag = "any" && List.length name <= 4096) then Some (name, delta) else None))
+                (if tag = "ok" || (tag = "any" && List.length name <= 4096 && name <> []) then Some (name, delta) else None))
              | "X" -> let e = next_n c in let r = next c in (OpExtend e, r, None)
              | "R" ->
                let m = next_bytes c in
